@@ -51,6 +51,27 @@ func throttleViaSubroute(ctx caddy.Context, cfg map[string]any, next layer4.Hand
 	return rl.Compile(zap.NewNop(), time.Hour, next), nil
 }
 
+// throttlePreSubroute: the throttle handler in FRONT of a subroute whose (real, reading) matcher needs more bytes than
+// one throttled read delivers - matching takes several rounds, each of which must rewind to the same place.
+func throttlePreSubroute(ctx caddy.Context, cfg map[string]any, next layer4.Handler) (layer4.Handler, error) {
+	th := map[string]any{"handler": "throttle"}
+	for k, v := range cfg {
+		th[k] = v
+	}
+	sub := map[string]any{"handler": "subroute", "matching_timeout": int64(10 * time.Second), "routes": []map[string]any{
+		{"match": []map[string]any{{"regexp": map[string]any{"pattern": "^", "count": 1500}}}},
+	}}
+	raw, _ := json.Marshal([]map[string]any{{"handle": []map[string]any{th, sub}}})
+	var rl layer4.RouteList
+	if err := json.Unmarshal(raw, &rl); err != nil {
+		return nil, err
+	}
+	if err := rl.Provision(ctx); err != nil {
+		return nil, err
+	}
+	return rl.Compile(zap.NewNop(), time.Hour, next), nil
+}
+
 func runThrottle(sc thrScen, idx int) (map[string]any, error) {
 	cfg := map[string]any{}
 	trate, tburst := 0, 0
@@ -118,7 +139,7 @@ func runThrottle(sc thrScen, idx int) (map[string]any, error) {
 			shared.Add(vh.Ev{"e": "Start", "c": rec.ID})
 			reader := layer4.HandlerFunc(func(cx *layer4.Connection) error {
 				buf := make([]byte, sc.Buf)
-				if sc.Via != "sub" {
+				if sc.Via != "sub" && sc.Via != "presub" {
 					shared.Add(vh.Ev{"e": "RCall", "c": rec.ID})
 				}
 				for {
@@ -131,10 +152,14 @@ func runThrottle(sc thrScen, idx int) (map[string]any, error) {
 					}
 				}
 			})
-			if sc.Via == "sub" {
+			if sc.Via == "sub" || sc.Via == "presub" {
 				// the first read is the subroute's matching read
 				shared.Add(vh.Ev{"e": "RCall", "c": rec.ID})
-				compiled, err := throttleViaSubroute(ctx, cfg, reader)
+				mk := throttleViaSubroute
+				if sc.Via == "presub" {
+					mk = throttlePreSubroute
+				}
+				compiled, err := mk(ctx, cfg, reader)
 				if err != nil {
 					panic(err)
 				}
